@@ -497,12 +497,22 @@ impl Harness for C13 {
             j.params["tf_scale"] = json!(tf.0);
             j.params["tf_offset"] = json!(tf.1);
         }
+        let jobs = {
+            let mut j: Vec<Job> = jobs;
+            j.insert(0, Job::new("builders", json!({"kind": "builders"})));
+            j
+        };
         Plan {
             jobs,
             budget_s: if t { 2700 } else { 40 },
             case_deadline_ms: 20_000,
-            floors: floors(t),
+            floors: {
+                let mut f = floors(t);
+                f.push(("builder_chains", 5));
+                f
+            },
             bounds: json!({
+                "builders": mc_sc::builders::BOUNDS,
                 "lattices_exhaustive": lattice_bounds,
                 "lattice_multisets_exhaustive": multiset_bounds,
                 "structured_data_sets": structured,
@@ -513,6 +523,9 @@ impl Harness for C13 {
     }
 
     fn run(&self, job: &Job) {
+        if job.kind() == "builders" {
+            return mc_sc::builders::run("C13");
+        }
         let tf = (job.f("tf_scale"), job.f("tf_offset"));
         match job.kind() {
             "lattice" => {
@@ -580,6 +593,7 @@ impl Harness for C13 {
                     run_case::<f64>(&c)
                 });
             }
+            "builders" => mc_sc::builders::run("C13"),
             other => panic!("unknown job kind {}", other),
         }
     }
